@@ -1,5 +1,6 @@
 import PyttbModel.Core.Codec
 import PyttbModel.Ops.KruskalReparam
+import PyttbModel.Ops.KruskalSeq
 open Lean Pyttb Pyttb.Codec
 namespace Pyttb.Driver
 
@@ -71,7 +72,41 @@ def boolD (j : Json) (k : String) (d : Bool) : R Bool :=
 
 def matsJ (l : List (Mat Rat)) : Json := listJ ratMatJ l
 
+def envJ (E : Ktensor.Env Rat) : Json :=
+  Json.mkObj [("ks", listJ ktensorJ E.ks), ("vs", listJ ratsJ E.vs), ("ls", listJ matsJ E.ls)]
+
+def asSeqOp (j : Json) : R Ktensor.SeqOp := do
+  let name ← field j "op" >>= asStr
+  let nat (k : String) : R Nat := field j k >>= asNat
+  match name with
+  | "normalize" => do
+    let wf ← optWF j
+    let sort ← boolD j "sort" false
+    let nt ← field j "nt" >>= asNormType
+    let mode ← optInt j "mode"
+    .ok (.normalize (← nat "k") wf sort nt mode)
+  | "arrange" => do .ok (.arrange (← nat "k") (← optInt j "wf") (← optIntList j "perm"))
+  | "fixsigns" => do .ok (.fixsigns (← nat "k"))
+  | "fixsigns_ref" => do .ok (.fixsignsRef (← nat "k") (← nat "other"))
+  | "redistribute" => do .ok (.redistribute (← nat "k") (← field j "mode" >>= asInt))
+  | "update" => do .ok (.update (← nat "k") (← field j "modes" >>= asInts) (← nat "v"))
+  | "tovec" => do .ok (.tovec (← nat "k") (← field j "w" >>= asBool))
+  | "from_vector" => do .ok (.fromVector (← nat "v") (← field j "shape" >>= asNats) (← field j "w" >>= asBool))
+  | "extract" => do .ok (.extract (← nat "k") (← field j "idx" >>= asInts))
+  | "copy" => do .ok (.copy (← nat "k"))
+  | "add" => do .ok (.add (← nat "a") (← nat "b"))
+  | "sub" => do .ok (.sub (← nat "a") (← nat "b"))
+  | "tolist" => do .ok (.tolist (← nat "k") (← optInt j "mode"))
+  | "construct" => do .ok (.construct (← nat "l"))
+  | _ => .error s!"bad seq op {name}"
+
 def ops08 : List (String × Op) := [
+  ("k_seq", fun j => do
+    let ks ← field j "ks" >>= asList asKtensor
+    let vs ← field j "vs" >>= asList asRats
+    let ls ← field j "ls" >>= asList (asList asRatMat)
+    let prog ← field j "prog" >>= asList asSeqOp
+    .ok (listJ (exceptJ envJ) (Ktensor.runSeq svcRat ⟨ks, vs, ls⟩ prog))),
   ("k_construct", fun j => do
     let f ← field j "factors" >>= asList asRatMat
     let w ← match fieldOpt j "weights" with
